@@ -102,6 +102,10 @@ def check(run, res, t_silent):
                 res.known.append({'id': FINDING_L, 'msg': msg})
             elif _norm(stored) == final and is_finding_m(left, uid, vers, calls, dcfg, prefixes):
                 res.known.append({'id': FINDING_M, 'msg': msg})
+            elif is_finding_c(uid, name, sim, calls) and not any(c['uid'] == uid and c['hid'].split('/')[0] in {_top_of(k) for k in left} for c in calls):
+                # the records are those of a handler that was never invoked for this uid: a write computed for the same-named
+                # predecessor planted them here (finding C), and nobody owns them
+                res.known.append({'id': FINDING_C, 'msg': msg})
             else:
                 res.fail('C03/Q3-progress-left', msg)
         # Q2
@@ -205,6 +209,13 @@ def is_finding_l(left, uid, vers, calls, pcfg, ids, timeout):
             if w['writer'] == c['inc'] and w['rv'] > int(c['rv']) and w['t'] + timeout - 1e-6 <= c['t0']:
                 return True
     return False
+
+
+def _top_of(key):
+    """The top-level handler id of a raw progress key ('ann', '<prefix>/<id with dots>') or ('status', '<id with slashes>')."""
+    if key[0] == 'ann':
+        return key[1].split('/', 1)[1].split('.')[0]
+    return key[1].split('/')[0]
 
 
 def is_finding_c(uid, name, sim, calls):
